@@ -319,4 +319,77 @@ SEEDS = [
                     self.insert_as_left(entity, if anchor == EMPTY_REF { p_index } else { anchor });
                     return;
                 }""", note='links the new node under a child that the gate has just removed'),
+
+    dict(id='Y1-map-insert-allocates-before-descent', props=['C18'], file='src/map/tree.rs',
+         old="""        let key = entity.key;
+
+        loop {
+            let p_index = index;
+            let node = self.node(index);
+            if key < node.entity.key {
+                index = node.left;
+                if index == EMPTY_REF {
+                    self.insert_as_left(entity, p_index);
+                    return;
+                }""",
+         new="""        let key = entity.key;
+        let spare = self.store.get_free_index();
+        self.store.put_back(spare);
+
+        loop {
+            let p_index = index;
+            let node = self.node(index);
+            if key < node.entity.key {
+                index = node.left;
+                if index == EMPTY_REF {
+                    self.insert_as_left(entity, p_index);
+                    return;
+                }""", note='slot taken from the pool before the comparisons of the descent'),
+    dict(id='Y2-set-insert-key-after-link', props=['C18'], file='src/set/tree.rs',
+         old="""        let parent = self.node_mut(p_index);
+        parent.right = new_index;
+
+        if parent.color == Color::Red {
+            self.fix_red_black_properties_after_insert(new_index, p_index);
+        }""",
+         new="""        let parent = self.node_mut(p_index);
+        parent.right = new_index;
+
+        if parent.color == Color::Red && self.node(new_index).value.key() >= self.node(p_index).value.key() {
+            self.fix_red_black_properties_after_insert(new_index, p_index);
+        }""", note='user comparison between linking and repair'),
+    dict(id='Y3-seg-insert-expiration-in-loop', props=['C18'], file='src/seg/tree.rs',
+         old="""        for index in BitIter::new(mask) {
+            self.chunk_mut(index).insert(entity);
+        }""",
+         new="""        for index in BitIter::new(mask) {
+            if entity.val.expiration() == E::max_expiration() {
+                continue;
+            }
+            self.chunk_mut(index).insert(entity);
+        }""", note='expiration accessor called between the pushes of one insert'),
+    dict(id='Y4-keylist-insert-push-sort', props=['C18'], file='src/key/list.rs',
+         old="""        let index = self
+            .buffer
+            .binary_search_by_key(&key, |e| e.key)
+            .unwrap_or_else(|index| index);
+        self.buffer.insert(index, Entity::new(key, val));
+    }
+
+    #[inline]
+    fn get_value""",
+         new="""        self.buffer.push(Entity::new(key, val));
+        self.buffer.sort_by(|a, b| a.key.cmp(&b.key));
+    }
+
+    #[inline]
+    fn get_value""", note='push then sort_by with the user ordering: a panicking cmp leaves the new entry at the wrong place'),
+    dict(id='Y5-key-delete-compare-in-removal', props=['C18'], file='src/key/tree.rs',
+         old="""            self.node_mut(index).entity = entity;
+
+            delete_index = successor_index;""",
+         new="""            self.node_mut(index).entity = entity;
+            debug_assert!(self.node(index).entity.key <= entity.key);
+
+            delete_index = successor_index;""", note='key comparison after the payload move inside the removal (debug builds)'),
 ]
